@@ -76,7 +76,7 @@ where
 
         match *state {
             PacketStreamState::Idle => {
-                let chunk_size = if packet.end - *size < DEFAULT_CHUNK_SIZE {
+                let chunk_size = if packet.end.saturating_sub(*size) < DEFAULT_CHUNK_SIZE {
                     DEFAULT_CHUNK_SIZE
                 } else {
                     packet.end
@@ -97,8 +97,10 @@ where
                     // We need to be able to read at least fixed header and one byte of size to proceed.
                     if *size >= 2 {
                         *state = PacketStreamState::ReadPacketLen;
-                        return self.poll_next(cx);
                     }
+
+                    // Otherwise read again: only a read that returns Pending has registered the waker.
+                    return self.poll_next(cx);
                 }
 
                 Poll::Pending
